@@ -1,7 +1,7 @@
 SPECIFICATION Spec
 CONSTANTS MaxN = 3
   LenProfiles <- LensThorough
-  Forms = {"seq", "source", "seq_calter", "source_calter", "seq_malter", "source_malter"}
+  Forms <- FormsAll
   StopKinds = {"close", "abandon"}
   Scenarios <- ScenAll
   KeepHistory = TRUE
